@@ -226,7 +226,13 @@ func c17Trial(c *Ctx) {
 			}
 			o := mon.Capture(nil, func() ([]tensor.Tensor, error) {
 				var err error
-				base[g][j], err = bm.Run(in)
+				one := bm
+				if !spec.Heavy { // "what it returns when executed alone": a freshly loaded model per Run
+					if one, err = gonnx.NewModelFromBytes(spec.Bytes); err != nil {
+						return nil, err
+					}
+				}
+				base[g][j], err = one.Run(in)
 				return nil, err
 			})
 			if o.Kind == mon.Panic {
